@@ -33,6 +33,7 @@ type World struct {
 // Engine holds the state of one verification job (one function or lemma).
 type Engine struct {
 	w     *World
+	dynVals bool // fresh values are being made for something produced during the call (see valLimit)
 	tb    *TB
 	mc    *MemCtx
 	prog  *ssa.Program
